@@ -86,7 +86,10 @@ def check_unknown(ctx, handle):
     for what, fn in (("iter", lambda: list(handle)), ("outputs", lambda: list(handle.outputs())),
                      ("open-slice", lambda: list(handle[:])), ("open-slice-from", lambda: list(handle[1:]))):
         got = outcome(fn)
-        if got[0] != "ValueError":
+        # iterating must raise ValueError (stated); what a slice of a handle of unknown length raises is not stated:
+        # any refusal will do, a result will not
+        ok = got[0] == "ValueError" or (what.startswith("open-slice") and got[0] != "ok")
+        if not ok:
             ctx.disc(None, "unknown-count-iter", what, "ValueError", got, stratum="index",
                      case={"unknown": what})
 
